@@ -4,5 +4,5 @@ Require Import ExtrOcamlBasic.
 Extraction Language OCaml.
 Cd "../ocaml/gen".
 Extraction "itv.ml" q_mk q_lower q_upper q_is_empty q_is_singleton q_lower_is_open q_upper_is_open
-  q_neg q_add q_sub q_mul q_mul_fixed q_mul_diag q_div q_join1 q_join2 q_int1 q_int2 q_dif1 q_dif2 q_rex q_run.
+  q_neg q_add q_sub q_mul q_mul_diag q_div q_join1 q_join2 q_int1 q_int2 q_dif1 q_dif2 q_rex q_run.
 Cd "../../coq".
